@@ -9,7 +9,9 @@
 //! Request half (full product, every point executed on the real code):
 //!   USERNAME {none, wrong-ufrag, right = "<agent ufrag>:<peer ufrag>"}
 //! x MESSAGE-INTEGRITY {absent, random 20 bytes, HMAC-SHA1 under the *remote* (peer's) password,
-//!   HMAC-SHA1 under a third key, correct = HMAC-SHA1 under the agent's local ICE password}
+//!   HMAC-SHA1 under a third key, correct HMAC with one bit inverted (first / last bit in the
+//!   product; all 160 positions in one fixed context), correct = HMAC-SHA1 under the agent's
+//!   local ICE password}
 //! x FINGERPRINT {absent, bad, good} x USE-CANDIDATE {0,1} x {ICE-CONTROLLING, ICE-CONTROLLED}
 //! x source {known remote candidate address P, stranger S}
 //! x ICE state {new, checking, connected-unnominated, connected, connected-relaypeer}
@@ -34,7 +36,7 @@
 //! {random, stale = completed earlier, live = captured from the agent's own outstanding check}
 //! x source {right = P, wrong = S} x the states in which such ids exist x role.  A response whose
 //! id is not outstanding must leave the snapshot unchanged and must not complete the outstanding
-//! transaction (the agent keeps retransmitting it).  Responses with a live id are recorded, not
+//! transaction (the agent keeps retransmitting it; RTO schedule 0.5/1.5/3.1 s).  Responses with a live id are recorded, not
 //! judged (the property allows them to be honoured).
 //!
 //! Every violating signature is re-run alone (serially) three times and reported only if it
@@ -69,7 +71,14 @@ macro_rules! dim {
 }
 
 dim!(User { None => "none", Wrong => "wrong-ufrag", Right => "right" });
-dim!(Mi { Absent => "absent", Random => "random", RemotePwd => "remote-pwd", ThirdKey => "third-key", Correct => "correct" });
+dim!(Mi {
+    Absent => "absent",
+    Random => "random",
+    RemotePwd => "remote-pwd",
+    ThirdKey => "third-key",
+    BitFlip => "bitflip",
+    Correct => "correct",
+});
 dim!(Fp { Absent => "absent", Bad => "bad", Good => "good" });
 dim!(RoleAttr { Controlling => "ice-controlling", Controlled => "ice-controlled" });
 dim!(Src { Known => "known", Stranger => "stranger" });
@@ -89,6 +98,8 @@ dim!(RSrc { Right => "right", Wrong => "wrong" });
 struct ReqCase {
     user: User,
     mi: Mi,
+    /// for `Mi::BitFlip`: which of the 160 bits of the correct HMAC is inverted (0 otherwise)
+    flip: u8,
     fp: Fp,
     uc: bool,
     attr: RoleAttr,
@@ -117,7 +128,7 @@ impl ReqCase {
         self.user == User::Right && self.mi == Mi::Correct
     }
     fn json(&self) -> Value {
-        json!({"kind": "request", "user": self.user.name(), "mi": self.mi.name(), "fp": self.fp.name(),
+        json!({"kind": "request", "user": self.user.name(), "mi": self.mi.name(), "flip_bit": self.flip, "fp": self.fp.name(),
                "use_candidate": self.uc, "role_attr": self.attr.name(), "source": self.src.name(),
                "state": self.st.name(), "role": self.role.name()})
     }
@@ -141,6 +152,7 @@ impl Case {
             "request" => Some(Case::Req(ReqCase {
                 user: User::parse(s("user")?)?,
                 mi: Mi::parse(s("mi")?)?,
+                flip: v["flip_bit"].as_u64().unwrap_or(0) as u8,
                 fp: Fp::parse(s("fp")?)?,
                 uc: v["use_candidate"].as_bool()?,
                 attr: RoleAttr::parse(s("role_attr")?)?,
@@ -180,6 +192,8 @@ enum MiSpec<'a> {
     Absent,
     Raw([u8; 20]),
     Key(&'a [u8]),
+    /// HMAC under the key with one bit inverted
+    KeyFlip(&'a [u8], u8),
 }
 
 fn hmac_sha1(key: &[u8], data: &[u8]) -> [u8; 20] {
@@ -218,6 +232,13 @@ fn build_stun(typ: u16, txid: &[u8; 12], attrs: &[(u16, Vec<u8>)], mi: MiSpec, f
             let body = b.len() - 20 + 24;
             set_len(&mut b, body);
             let h = hmac_sha1(k, &b);
+            put_attr(&mut b, A_MI, &h);
+        }
+        MiSpec::KeyFlip(k, bit) => {
+            let body = b.len() - 20 + 24;
+            set_len(&mut b, body);
+            let mut h = hmac_sha1(k, &b);
+            h[(bit / 8) as usize % 20] ^= 0x80 >> (bit % 8);
             put_attr(&mut b, A_MI, &h);
         }
     }
@@ -295,6 +316,7 @@ fn build_request(
     txid: &[u8; 12],
     user: User,
     mi: Mi,
+    flip: u8,
     fp: Fp,
     uc: bool,
     attr: RoleAttr,
@@ -329,6 +351,7 @@ fn build_request(
         Mi::Random => MiSpec::Raw(raw),
         Mi::RemotePwd => MiSpec::Key(PEER_PWD.as_bytes()),
         Mi::ThirdKey => MiSpec::Key(THIRD_KEY),
+        Mi::BitFlip => MiSpec::KeyFlip(local.password.as_bytes(), flip),
         Mi::Correct => MiSpec::Key(local.password.as_bytes()),
     };
     build_stun(T_BINDING_REQ, txid, &attrs, spec, fp)
@@ -342,7 +365,7 @@ fn encoder_self_check() -> Result<(), String> {
     let local = IceParameters::new("agentufrag", "agentpassword0123456789ab");
     let txid = [7u8; 12];
     let check = |mi: Mi, fp: Fp| -> (bool, bool) {
-        let bytes = build_request(&txid, User::Right, mi, fp, true, RoleAttr::Controlling, &local);
+        let bytes = build_request(&txid, User::Right, mi, 159, fp, true, RoleAttr::Controlling, &local);
         let mut m = Message::new();
         if m.unmarshal_binary(&bytes).is_err() {
             return (false, false);
@@ -354,7 +377,7 @@ fn encoder_self_check() -> Result<(), String> {
     if check(Mi::Correct, Fp::Good) != (true, true) {
         return Err("stun crate rejects the harness' correct MI / good FINGERPRINT".into());
     }
-    for mi in [Mi::Absent, Mi::Random, Mi::RemotePwd, Mi::ThirdKey] {
+    for mi in [Mi::Absent, Mi::Random, Mi::RemotePwd, Mi::ThirdKey, Mi::BitFlip] {
         if check(mi, Fp::Good).0 {
             return Err(format!("stun crate accepts MI class {} under the local password", mi.name()));
         }
@@ -365,7 +388,7 @@ fn encoder_self_check() -> Result<(), String> {
     for user in User::ALL {
         for mi in Mi::ALL {
             for fp in Fp::ALL {
-                let bytes = build_request(&txid, *user, *mi, *fp, true, RoleAttr::Controlled, &local);
+                let bytes = build_request(&txid, *user, *mi, 0, *fp, true, RoleAttr::Controlled, &local);
                 let d = StunMessage::decode(&bytes).map_err(|e| format!("rustrtc cannot decode harness request: {e}"))?;
                 if !d.use_candidate || d.transaction_id != txid {
                     return Err("rustrtc decodes harness request differently".into());
@@ -526,7 +549,7 @@ impl Env {
     /// Ordering barrier: authenticated Binding request without USE-CANDIDATE from P.
     async fn barrier(&mut self, role: Role) -> bool {
         let txid = self.next_txid();
-        let req = build_request(&txid, User::Right, Mi::Correct, Fp::Good, false, Self::genuine_attr(role), &self.local);
+        let req = build_request(&txid, User::Right, Mi::Correct, 0, Fp::Good, false, Self::genuine_attr(role), &self.local);
         if self.p.send_to(&req, self.agent).await.is_err() {
             return false;
         }
@@ -616,7 +639,7 @@ async fn setup(st: St, role: Role, salt: u64) -> Result<Env, String> {
                 return Ok(env);
             }
             let txid = env.next_txid();
-            let nom = build_request(&txid, User::Right, Mi::Correct, Fp::Good, true, RoleAttr::Controlling, &env.local);
+            let nom = build_request(&txid, User::Right, Mi::Correct, 0, Fp::Good, true, RoleAttr::Controlling, &env.local);
             env.p.send_to(&nom, env.agent).await.map_err(|e| e.to_string())?;
             env.wait_inbox(SETUP_DEADLINE, |ib| ib.iter().any(|(t, p, _)| *t == 'P' && p.txid == txid && p.typ == T_BINDING_OK).then_some(()))
                 .await
@@ -695,7 +718,7 @@ async fn run_req(c: ReqCase, attempt: u32) -> Result<Outcome, String> {
     let before = env.snapshot();
     let _ = env.nom_rx.borrow_and_update();
     let txid = env.next_txid();
-    let bytes = build_request(&txid, c.user, c.mi, c.fp, c.uc, c.attr, &env.local);
+    let bytes = build_request(&txid, c.user, c.mi, c.flip, c.fp, c.uc, c.attr, &env.local);
     let (tag, sock) = match c.src {
         Src::Known => ('P', &env.p),
         Src::Stranger => ('S', &env.s),
@@ -792,16 +815,32 @@ async fn run_resp(c: RespCase, attempt: u32) -> Result<Outcome, String> {
     }
     let after = env.snapshot();
     let renotified = env.nom_rx.has_changed().unwrap_or(false) && before.nomination == after.nomination;
-    // Is the live transaction still outstanding?  The agent retransmits it (RTO 0.5 s, 1 s, 1.6 s).
+    // Is the live transaction still outstanding?  The agent retransmits it at 0.5, 1.5, 3.1 s after
+    // its first transmission (RTO 0.5 s doubling, capped at 1.6 s); wait for the next one that is
+    // due after the injection, plus slack.
     let live_still_outstanding = match live {
         None => None,
-        Some(l) => Some(
-            env.wait_inbox(Duration::from_millis(2600), |ib| {
-                ib.iter().any(|(t, p, at)| *t == 'P' && p.typ == T_BINDING_REQ && p.txid == l && *at > t_inject).then_some(())
-            })
-            .await
-            .is_some(),
-        ),
+        Some(l) => {
+            let first_seen = env
+                .inbox
+                .iter()
+                .find(|(t, p, _)| *t == 'P' && p.typ == T_BINDING_REQ && p.txid == l)
+                .map(|(_, _, at)| *at)
+                .unwrap_or(t_inject);
+            let due = [500u64, 1500, 3100, 4700]
+                .iter()
+                .map(|ms| first_seen + Duration::from_millis(*ms))
+                .find(|t| *t > t_inject + Duration::from_millis(5))
+                .unwrap_or(t_inject + Duration::from_millis(1600));
+            let wait = (due + Duration::from_millis(700)).saturating_duration_since(Instant::now());
+            Some(
+                env.wait_inbox(wait, |ib| {
+                    ib.iter().any(|(t, p, at)| *t == 'P' && p.typ == T_BINDING_REQ && p.txid == l && *at > t_inject).then_some(())
+                })
+                .await
+                .is_some(),
+            )
+        }
     };
     env.teardown();
     let (mut effects, other_state_change) = diff(&before, &after);
@@ -894,7 +933,11 @@ fn enumerate(tier: vh::Tier) -> Vec<Case> {
                             for &fp in fps {
                                 let attrs: Vec<RoleAttr> = if quick { vec![Env::genuine_attr(role)] } else { RoleAttr::ALL.to_vec() };
                                 for attr in attrs {
-                                    v.push(Case::Req(ReqCase { user, mi, fp, uc, attr, src, st, role }));
+                                    // in the product the bit-flip class is represented by its two extreme positions
+                                    let flips: &[u8] = if mi == Mi::BitFlip { &[0, 159] } else { &[0] };
+                                    for &flip in flips {
+                                        v.push(Case::Req(ReqCase { user, mi, flip, fp, uc, attr, src, st, role }));
+                                    }
                                 }
                             }
                         }
@@ -902,6 +945,23 @@ fn enumerate(tier: vh::Tier) -> Vec<Case> {
                 }
             }
         }
+    }
+    // every single-bit corruption of the correct HMAC (quick: the top bit of every byte), one context
+    for bit in 0..160u8 {
+        if bit == 0 || bit == 159 || (quick && bit % 8 != 0) {
+            continue;
+        }
+        v.push(Case::Req(ReqCase {
+            user: User::Right,
+            mi: Mi::BitFlip,
+            flip: bit,
+            fp: Fp::Good,
+            uc: true,
+            attr: RoleAttr::Controlling,
+            src: Src::Stranger,
+            st: St::New,
+            role: Role::Controlled,
+        }));
     }
     for &st in &[St::Checking, St::ConnPending, St::Connected] {
         for &role in Role::ALL {
@@ -1114,7 +1174,7 @@ fn main() {
     rep.set(
         "space",
         format!(
-            "requests: USERNAME{{3}} x MI{{5}} x FINGERPRINT{{{}}} x USE-CANDIDATE{{2}} x role-attr{{{}}} x source{{2}} x state{{5}} x role{{2}} = {}; responses: class{{2}} x txid{{random,stale,live where they exist}} x source{{2}} x state{{checking,connected-unnominated,connected}} x role{{2}} = {}",
+            "requests: USERNAME{{3}} x MI{{5 + bitflip first/last}} x FINGERPRINT{{{}}} x USE-CANDIDATE{{2}} x role-attr{{{}}} x source{{2}} x state{{5}} x role{{2}} + single-bit MI corruptions in one context = {}; responses: class{{2}} x txid{{random,stale,live where they exist}} x source{{2}} x state{{checking,connected-unnominated,connected}} x role{{2}} = {}",
             if matches!(cli.tier, vh::Tier::Quick) { 1 } else { 3 },
             if matches!(cli.tier, vh::Tier::Quick) { 1 } else { 2 },
             n_req,
